@@ -13,6 +13,8 @@ import (
 
 	"github.com/anishathalye/porcupine"
 
+	"go.pennock.tech/tabular"
+	"go.pennock.tech/tabular/auto"
 	"go.pennock.tech/tabular/texttable"
 	"go.pennock.tech/tabular/texttable/decoration"
 
@@ -383,6 +385,20 @@ func c17FailClosed(c *Ctx, i int, r *gen.R) {
 	c.Case = desc
 	c.Rec.Eval(gen.Hash64("failclosed", name, how), true)
 	tt := texttable.New()
+	made := "texttable.New()"
+	switch (i / 3) % 4 {
+	case 1:
+		tt, made = texttable.Wrap(tabular.New()), "texttable.Wrap(tabular.New())"
+	case 2:
+		if x, ok := auto.New("texttable").(*texttable.TextTable); ok {
+			tt, made = x, "auto.New(\"texttable\")"
+		}
+	case 3:
+		if x, ok := auto.Wrap(tabular.New(), "ascii-simple").(*texttable.TextTable); ok {
+			tt, made = x, "auto.Wrap(tabular.New(), \"ascii-simple\")"
+		}
+	}
+	desc["table_made_by"] = made
 	tt.AddHeaders("h")
 	tt.AddRowItems("x")
 	good, gerr := tt.Render()
@@ -390,25 +406,31 @@ func c17FailClosed(c *Ctx, i int, r *gen.R) {
 		c.Rec.Violate("default-decoration-does-not-render", fmt.Sprintf("a fresh text table does not render: %q, %v", good, gerr), desc)
 		return
 	}
-	ret, err := tt.SetDecorationNamed(name)
 	c.Rec.Count("fail_closed_probes", 1)
-	if err == nil {
-		c.Rec.Violate("unknown-name-accepted", fmt.Sprintf("SetDecorationNamed(%q) (%s) returned no error", name, how), desc)
-		return
-	}
-	if ret != tt {
-		c.Rec.Violate("unknown-name-return-value", "SetDecorationNamed did not return the table for chaining", desc)
-		return
+	if (i/12)%2 == 1 {
+		// by value: the program looks the unknown name up itself and hands over what it got
+		desc["first_set_by"] = "SetDecoration(decoration.Named(name))"
+		tt.SetDecoration(decoration.Named(name))
+	} else {
+		ret, err := tt.SetDecorationNamed(name)
+		if err == nil {
+			c.Rec.Violate("unknown-name-accepted", fmt.Sprintf("SetDecorationNamed(%q) (%s) returned no error", name, how), desc)
+			return
+		}
+		if ret != tt {
+			c.Rec.Violate("unknown-name-return-value", "SetDecorationNamed did not return the table for chaining", desc)
+			return
+		}
 	}
 	for k := 0; k < 2; k++ {
 		out, rerr := tt.Render()
 		if rerr == nil || out != "" {
-			c.Rec.Violate("renders-after-unknown-name", fmt.Sprintf("after SetDecorationNamed(%q) failed, Render #%d returned %q with error %v instead of refusing", name, k+1, out, rerr), desc)
+			c.Rec.Violate("renders-after-unknown-name", fmt.Sprintf("after the table was set to the unknown name %q, Render #%d returned %q with error %v instead of refusing", name, k+1, out, rerr), desc)
 			return
 		}
 		var sw scriptWriter
 		if rerr := tt.RenderTo(&sw); rerr == nil || len(sw.accepted) != 0 {
-			c.Rec.Violate("renders-after-unknown-name", fmt.Sprintf("after SetDecorationNamed(%q) failed, RenderTo wrote %q with error %v", name, sw.accepted, rerr), desc)
+			c.Rec.Violate("renders-after-unknown-name", fmt.Sprintf("after the table was set to the unknown name %q, RenderTo wrote %q with error %v", name, sw.accepted, rerr), desc)
 			return
 		}
 	}
@@ -417,7 +439,17 @@ func c17FailClosed(c *Ctx, i int, r *gen.R) {
 	var steps []string
 	for k := r.Range(3, 8); k > 0; k-- {
 		wantOK := true
-		switch r.Intn(4) {
+		switch r.Intn(6) {
+		case 4:
+			// the program looks the name up itself and hands the result over by value: the same unknown name, the same refusal
+			unk := fmt.Sprintf("%s-by-value-%d", name, k)
+			steps = append(steps, fmt.Sprintf("SetDecoration(decoration.Named(%q)) [never registered]", unk))
+			tt.SetDecoration(decoration.Named(unk))
+			wantOK = false
+		case 5:
+			known := c17Builtins[r.Intn(len(c17Builtins))]
+			steps = append(steps, fmt.Sprintf("SetDecoration(decoration.Named(%q)) [known]", known))
+			tt.SetDecoration(decoration.Named(known))
 		case 0, 1:
 			known := c17Builtins[r.Intn(len(c17Builtins))]
 			steps = append(steps, fmt.Sprintf("SetDecorationNamed(%q) [known]", known))
